@@ -680,6 +680,12 @@ class Bf3File:
                 )
             bf3tag_type, hwcid, bf3tag_fmt, interface = BF2_TAGTYPE_MAP[fwtagtype]
             if bf3tag_type is None:
+                if "REBOOT" in bf2_instrs:
+                    # ignored section closed by its own REBOOT: what was stated
+                    # for it must not be applied to the next section
+                    for name in ("REBOOT", "CRC", "CHECK_FWVER"):
+                        bf2_instrs.pop(name, None)
+                    bf2_fwdata[:] = []
                 return
             desc = {
                 BF3TAG.FMT: bf3tag_fmt.to_bytes(1, "big"),
